@@ -3,7 +3,6 @@
    monotonicity of the CTW cross-section polynomial, log10 of the energy range. *)
 From Coq Require Import Reals List Bool ZArith Lra Lia Psatz.
 From Coquelicot Require Import Coquelicot.
-From Interval Require Import Tactic.
 From PyrexLib Require Import RealPrims.
 Open Scope R_scope.
 
@@ -193,50 +192,62 @@ Lemma poly_step c1 c2 c3 c4 L1 L2 : 0 < L1 -> 0 < L2 ->
   = (L2 - L1) * (c2 + c3 * (L1 + L2) - c4 / (L1 * L2)).
 Proof. intros; field; lra. Qed.
 
-Lemma sigma_power_increasing_gen c0 c1 c2 c3 c4 lo hi :
-  0 < lo -> c0 < 3 ->
-  (forall e, 3 <= e <= 12 -> lo <= ln (e - c0) <= hi) ->
-  (forall L1 L2, lo <= L1 <= hi -> lo <= L2 <= hi -> 0 < c2 + c3 * (L1 + L2) - c4 / (L1 * L2)) ->
-  forall e1 e2, 3 <= e1 -> e1 < e2 -> e2 <= 12 ->
+(* c2 + c3 (L1+L2) + k/(L1 L2) > 0 for ALL positive L1, L2 as soon as the cubic
+   c3 s^3 + c2 s^2 + 4k is positive for s > 0  (L1 L2 <= ((L1+L2)/2)^2) *)
+Lemma bracket_pos c2 c3 k L1 L2 : 0 < L1 -> 0 < L2 -> 0 < k ->
+  (forall s, 0 < s -> 0 < c3 * s ^ 3 + c2 * s ^ 2 + 4 * k) ->
+  0 < c2 + c3 * (L1 + L2) + k / (L1 * L2).
+Proof.
+  intros H1 H2 Hk Hc. assert (Hs : 0 < L1 + L2) by lra. pose proof (Hc (L1 + L2) Hs) as H.
+  set (s := L1 + L2) in *. set (P := L1 * L2).
+  assert (HP : 0 < P) by (unfold P; nra).
+  assert (HPs : 4 * P <= s ^ 2) by (unfold P, s; pose proof (pow2_ge_0 (L1 - L2)); nra).
+  assert (G : 0 < (c2 + c3 * s) * P + k).
+  { destruct (Rle_dec 0 (c2 + c3 * s)); [nra|]. nra. }
+  replace (c2 + c3 * s + k / P) with (((c2 + c3 * s) * P + k) / P) by (field; lra).
+  apply Rdiv_lt_0_compat; assumption.
+Qed.
+
+Lemma sigma_power_increasing_gen c0 c1 c2 c3 c4 :
+  c0 < 2 -> c4 < 0 ->
+  (forall s, 0 < s -> 0 < c3 * s ^ 3 + c2 * s ^ 2 + 4 * - c4) ->
+  forall e1 e2, 3 <= e1 -> e1 < e2 ->
   sigma_power c0 c1 c2 c3 c4 e1 < sigma_power c0 c1 c2 c3 c4 e2.
 Proof.
-  intros Hlo Hc0 HL Hpos e1 e2 H1 H12 H2. unfold sigma_power.
-  assert (B1 : lo <= ln (e1 - c0) <= hi) by (apply HL; lra).
-  assert (B2 : lo <= ln (e2 - c0) <= hi) by (apply HL; lra).
+  intros Hc0 Hk Hcub e1 e2 H1 H12. unfold sigma_power.
+  assert (B1 : 0 < ln (e1 - c0)) by (rewrite <- ln_1; apply ln_increasing; lra).
   assert (Hlt : ln (e1 - c0) < ln (e2 - c0)) by (apply ln_increasing; lra).
   set (L1 := ln (e1 - c0)) in *. set (L2 := ln (e2 - c0)) in *.
   apply Rminus_gt_0_lt. rewrite poly_step by lra.
-  apply Rmult_lt_0_compat; [lra|]. apply Hpos; lra.
+  apply Rmult_lt_0_compat; [lra|].
+  replace (c2 + c3 * (L1 + L2) - c4 / (L1 * L2)) with (c2 + c3 * (L1 + L2) + - c4 / (L1 * L2)) by (field; lra).
+  apply bracket_pos; try assumption; lra.
 Qed.
 
 (* the four published parameter sets *)
 Lemma sigma_power_increasing_nu_cc e1 e2 : 3 <= e1 -> e1 < e2 -> e2 <= 12 ->
   sigma_power (-1.826) (-17.31) (-6.406) 1.431 (-17.91) e1 < sigma_power (-1.826) (-17.31) (-6.406) 1.431 (-17.91) e2.
 Proof.
-  apply (sigma_power_increasing_gen _ _ _ _ _ 1.57 2.63); try lra.
-  - intros e He. split; interval.
-  - intros L1 L2 B1 B2. interval with (i_bisect L1, i_bisect L2).
+  intros H1 H12 _. apply (sigma_power_increasing_gen (-1.826) (-17.31) (-6.406) 1.431 (-17.91)); try lra.
+  intros s Hs. destruct (Rle_dec s 3.3); [nra|]. destruct (Rle_dec s 4.5); nra.
 Qed.
 Lemma sigma_power_increasing_nu_nc e1 e2 : 3 <= e1 -> e1 < e2 -> e2 <= 12 ->
   sigma_power (-1.826) (-17.31) (-6.448) 1.431 (-18.61) e1 < sigma_power (-1.826) (-17.31) (-6.448) 1.431 (-18.61) e2.
 Proof.
-  apply (sigma_power_increasing_gen _ _ _ _ _ 1.57 2.63); try lra.
-  - intros e He. split; interval.
-  - intros L1 L2 B1 B2. interval with (i_bisect L1, i_bisect L2).
+  intros H1 H12 _. apply (sigma_power_increasing_gen (-1.826) (-17.31) (-6.448) 1.431 (-18.61)); try lra.
+  intros s Hs. destruct (Rle_dec s 3.3); [nra|]. destruct (Rle_dec s 4.6); nra.
 Qed.
 Lemma sigma_power_increasing_nubar_cc e1 e2 : 3 <= e1 -> e1 < e2 -> e2 <= 12 ->
   sigma_power (-1.033) (-15.95) (-7.247) 1.569 (-17.72) e1 < sigma_power (-1.033) (-15.95) (-7.247) 1.569 (-17.72) e2.
 Proof.
-  apply (sigma_power_increasing_gen _ _ _ _ _ 1.39 2.57); try lra.
-  - intros e He. split; interval.
-  - intros L1 L2 B1 B2. interval with (i_bisect L1, i_bisect L2).
+  intros H1 H12 _. apply (sigma_power_increasing_gen (-1.033) (-15.95) (-7.247) 1.569 (-17.72)); try lra.
+  intros s Hs. destruct (Rle_dec s 3.1); [nra|]. destruct (Rle_dec s 4.7); nra.
 Qed.
 Lemma sigma_power_increasing_nubar_nc e1 e2 : 3 <= e1 -> e1 < e2 -> e2 <= 12 ->
   sigma_power (-1.033) (-15.95) (-7.296) 1.569 (-18.30) e1 < sigma_power (-1.033) (-15.95) (-7.296) 1.569 (-18.30) e2.
 Proof.
-  apply (sigma_power_increasing_gen _ _ _ _ _ 1.39 2.57); try lra.
-  - intros e He. split; interval.
-  - intros L1 L2 B1 B2. interval with (i_bisect L1, i_bisect L2).
+  intros H1 H12 _. apply (sigma_power_increasing_gen (-1.033) (-15.95) (-7.296) 1.569 (-18.30)); try lra.
+  intros s Hs. destruct (Rle_dec s 3.1); [nra|]. destruct (Rle_dec s 4.7); nra.
 Qed.
 
 Lemma pow10_increasing a b : a < b -> Rpower 10 a < Rpower 10 b.
